@@ -225,6 +225,7 @@ func roundtripCase(e *emitter, p *pkt, thr int, inDomain bool, class string) {
 			if _, done, err := proto(p.version).Unpack(ctx, rb); err != nil || done {
 				return fmt.Sprintf("first piece (%d of %d bytes): done=%v err=%v", c, len(frame), done, err)
 			}
+			otherPoolUsers(p.version) // other connections use the codec between the two pieces
 			rb.Write(frame[c:])
 			rb.Write(frame[:1]) // the first byte of the next frame is already there
 			pk3, done, err := proto(p.version).Unpack(ctx, rb)
@@ -233,6 +234,13 @@ func roundtripCase(e *emitter, p *pkt, thr int, inDomain bool, class string) {
 			}
 			if rb.Length() != 1 {
 				return fmt.Sprintf("left=%d (want the 1 byte of the next frame)", rb.Length())
+			}
+			// later input reuses the ring: the delivered packet must not change
+			for round := 0; round < 3; round++ {
+				if free := rb.Capacity() - rb.Length(); free > 0 {
+					rb.Write(bytes.Repeat([]byte{0xA5}, free))
+					rb.Retrieve(free)
+				}
 			}
 			q3 = pk3
 			return "ok"
@@ -259,6 +267,7 @@ func kindOf(p *pkt) string {
 }
 
 func genC01(e *emitter, tier string, seed uint64) map[string]interface{} {
+	defer flushUnstable(e, "C01")
 	rg := &rng{seed ^ 0x01}
 	thorough := tier == "thorough"
 	types := []string{"request", "response", "push"}
@@ -373,6 +382,20 @@ func genC01(e *emitter, tier string, seed uint64) map[string]interface{} {
 					p.body = bspec{kind: "prng", seed: rg.next() % 1000, n: c.n}
 				}
 				roundtripCase(e, p, c.thr, true, "boundary-2^24")
+			}
+		}
+	}
+	// bodies that are themselves gzip data, or merely start with the gzip magic, with compression on and off: content is content
+	for _, version := range []int{1, 2} {
+		for _, n := range []int{18, 40, 1084, 5000} {
+			inner := stdCompress(genBody(rg, n*4).bytes())
+			magic := append([]byte{0x1f, 0x8b, 0x08, 0x00}, rg.bytes(n)...)
+			for _, b := range [][]byte{inner, magic} {
+				for _, thr := range []int{0, 1, len(b), len(b) + 1} {
+					p := mk(version, types[rg.intn(3)], false, 0, 1)
+					p.body = hexSpec(b)
+					roundtripCase(e, p, thr, true, fmt.Sprintf("v%d/body-looks-like-gzip", version))
+				}
 			}
 		}
 	}
